@@ -6,6 +6,7 @@ import (
 	"context"
 	"database/sql"
 	"fmt"
+	"strings"
 	"sync"
 	"sync/atomic"
 	"time"
@@ -280,7 +281,19 @@ func RunBranch(ctx context.Context, db *sql.DB, mode, via string, prepared bool,
 			out.BeginErr = err.Error()
 			return out
 		}
-		defer c.Close()
+		defer func() {
+			// database/sql never releases a pinned connection when a driver call panicked on it:
+			// closing it would block for ever, so it is leaked instead
+			for _, r := range out.Stmts {
+				if strings.HasPrefix(r.Err, "PANIC") {
+					return
+				}
+			}
+			if strings.HasPrefix(out.CommitErr, "PANIC") || strings.HasPrefix(out.BeginErr, "PANIC") {
+				return
+			}
+			c.Close()
+		}()
 		x = c
 	}
 	if mode != "tx" && mode != "mixed" {
@@ -309,18 +322,33 @@ func RunBranch(ctx context.Context, db *sql.DB, mode, via string, prepared bool,
 		r := runStmt(ctx, tx, s.SQL, s.Args, prepared, s.Query)
 		out.Stmts = append(out.Stmts, r)
 		if r.Err != "" {
-			_ = tx.Rollback()
+			if err := safeEnd(tx, false); err != nil && strings.HasPrefix(err.Error(), "PANIC") {
+				out.CommitErr = err.Error()
+			}
 			out.RolledBack = true
 			return out
 		}
 	}
-	if err := tx.Commit(); err != nil {
+	if err := safeEnd(tx, true); err != nil {
 		out.CommitErr = err.Error()
 	}
 	for _, s := range tail {
 		out.Stmts = append(out.Stmts, runStmt(ctx, x, s.SQL, s.Args, prepared, s.Query))
 	}
 	return out
+}
+
+// safeEnd commits or rolls back; a panic in the driver stack becomes an error.
+func safeEnd(tx *sql.Tx, commit bool) (err error) {
+	defer func() {
+		if p := recover(); p != nil {
+			err = fmt.Errorf("PANIC: %v", p)
+		}
+	}()
+	if commit {
+		return tx.Commit()
+	}
+	return tx.Rollback()
 }
 
 // StmtText is a statement ready to run.
